@@ -101,7 +101,13 @@ func VerifC15PodIndex() { verifPodHistory(3+vp.Tier(), false) }
 // endpoint-before-pod: histories are one step shorter, endpoints wait (and stop waiting) before the pods show up
 func VerifC15EndpointBeforePod() { verifPodHistory(2+vp.Tier(), true) }
 
-func verifPodHistory(steps int, withEndpoints bool) {
+// IP reuse: after the first lifecycle step a slice that lists the watched IP for pod p1 arrives while p1 is unknown to
+// the pod informer (another pod may still hold the address); two more steps follow
+func VerifC15IPReuse() { verifPodHistoryMode(3, false, true) }
+
+func verifPodHistory(steps int, withEndpoints bool) { verifPodHistoryMode(steps, withEndpoints, false) }
+
+func verifPodHistoryMode(steps int, withEndpoints bool, sliceAfterFirstStep bool) {
 	store := &verifPods{cur: map[string]*v1.Pod{}}
 	var requeued []types.NamespacedName
 	pc := newPodCache(&Controller{}, store, func(k types.NamespacedName) { requeued = append(requeued, k) })
@@ -135,6 +141,8 @@ func verifPodHistory(steps int, withEndpoints bool) {
 		pc.endpointDeleted(epB, verifIPs[0])
 		pc.endpointDeleted(epA, verifIPs[0])
 	}
+	wasIndexed := []bool{false, false} // is the pod currently indexed under verifIPs[0]
+	lateRegistered := false
 	deliver := func(i int) {
 		cur := store.cur[names[i]]
 		old := delivered[i]
@@ -148,8 +156,15 @@ func verifPodHistory(steps int, withEndpoints bool) {
 			_ = pc.onEvent(nil, old, model.EventDelete)
 		}
 		delivered[i] = cur
-		if cur != nil && states[i].ip == verifIPs[0] && len(pc.getPodsByIP(verifIPs[0])) > 0 {
-			// the pod is indexed: every endpoint still waiting for its IP has been re-queued, nobody else has
+		// did this event index the pod under the watched IP (it was not indexed there before)?
+		now := false
+		for _, p := range pc.getPodsByIP(verifIPs[0]) {
+			if p.Name == names[i] {
+				now = true
+			}
+		}
+		if now && !wasIndexed[i] {
+			// a pod arrived on the IP: every endpoint waiting for it has been re-queued, exactly once, nobody else has
 			for _, ep := range []types.NamespacedName{epA, epB} {
 				n := 0
 				for _, r := range requeued {
@@ -164,9 +179,19 @@ func verifPodHistory(steps int, withEndpoints bool) {
 				}
 			}
 			vp.Assert(len(pc.needResync) == 0, "nothing-keeps-waiting-for-an-indexed-ip")
+			waiting, requeued = map[types.NamespacedName]bool{}, nil
 		}
+		wasIndexed[i] = now
 	}
 	for t := 0; t < steps; t++ {
+		// IP reuse: a slice that already lists the watched IP for pod p1 arrives while p1 is unknown to the pod
+		// informer - possibly while ANOTHER pod still holds the address. It waits for the pod on that IP.
+		arrives := withEndpoints && vp.Choice(vp.Name("step", t)+".sliceArrives", 2) == 1 || sliceAfterFirstStep && t == 1
+		if arrives && !lateRegistered && !waiting[epA] && store.cur[names[1]] == nil {
+			pc.queueEndpointEventOnPodArrival(epA, verifIPs[0])
+			waiting[epA] = true
+			lateRegistered = true
+		}
 		i := vp.Choice(vp.Name("step", t)+".pod", 2)
 		st := states[i]
 		st.step(vp.Name("step", t))
